@@ -15,6 +15,8 @@ literals projected back into trees (leaf ids, Negate wrappers, un-expanded sub-n
 Match on every member, logical equivalence of every clause list over ALL valuations for trees with <= 4
 distinct leaves (on the realised valuations for larger ones).
 
+While a tree is examined, the DNF derivations of the three previously examined trees are still in flight (one
+solution taken, iterator kept): derivations must be independent of each other.
 Carve-outs: empty groups; NotImplementedError (documented: negated node in CNF) is a refusal, counted, not judged.
 Leaf correctness is not judged here (truth of each leaf on each member is observed).
 """
@@ -283,13 +285,29 @@ def run(ck):
     ]
     wp, wv = make_worlds()
     worlds = {1: wp, 2: wv}
+    import collections
+
+    wp.live, wv.live = collections.deque(maxlen=3), collections.deque(maxlen=3)
     events = []
     meta = []  # per event: replay info
 
+    def hold(world, t, obj):
+        """keep a DNF derivation of this tree in flight (one solution taken) while later trees are examined:
+        derivations must not influence each other"""
+        if isinstance(obj, world.mod["boolean"].base):
+            it = obj.iter_dnf_solutions()
+            try:
+                next(it, None)
+            except Exception:
+                return
+            world.live.append((t, it))
+
     def add(world, t, obj, origin):
+        inflight = [x[0] for x in world.live]
         ev = observe(world, t, obj, len(events))
         events.append(ev)
-        meta.append(dict(flavour=world.flavour, tree=ev["t"], build=t, origin=origin))
+        meta.append(dict(flavour=world.flavour, tree=ev["t"], build=t, origin=origin, inflight=inflight))
+        hold(world, t, obj)
         ck.count()
         if ev["t"]["k"] != "leaf" and any(f["st"] == "ok" for f in ev["forms"]):
             ck.nontriv((world.flavour, repr(ev["t"])))
@@ -298,6 +316,8 @@ def run(ck):
     if ck.replay_case:
         d = ck.replay_case["detail"]
         world = wp if d["flavour"] == "package" else wv
+        for t0 in d.get("inflight", []):
+            hold(world, t0, world.build(t0))
         add(world, d["build"], world.build(d["build"]), d.get("origin", "replay"))
         ck.nontriv("replay2")
     else:
@@ -346,7 +366,7 @@ def run(ck):
         form = v["clause"].split("_")[0]
         f = next((x for x in e["forms"] if x["name"] == form), None)
         world = worlds[e["u"]]
-        detail = dict(flavour=m["flavour"], tree=m["tree"], build=m["build"], root=m["tree"]["k"], root_negated=m["tree"]["neg"],
+        detail = dict(flavour=m["flavour"], tree=m["tree"], build=m["build"], inflight=m["inflight"], root=m["tree"]["k"], root_negated=m["tree"]["neg"],
                       shape=shape(m["tree"]), origin=m["origin"],
                       leaves={str(i): str(world.leaf_objs[i - 1]) for i in sorted(_count_leaves(m["tree"], set()))})
         if f is not None:
